@@ -29,6 +29,11 @@ func refDecodeText(data []byte, cat refsym.Catalog) ([]*rm.Value, *refsym.Result
 
 func refDecode(mode int, data []byte, cat refsym.Catalog) ([]*rm.Value, *refsym.Result, error) {
 	if mode == 2 {
+		if len(data) == 0 {
+			// zero bytes are a valid (text) Ion stream of zero values; a binary writer that
+			// was asked for no values may legitimately emit nothing
+			return nil, &refsym.Result{}, nil
+		}
 		return refDecodeBinary(data, cat)
 	}
 	return refDecodeText(data, cat)
